@@ -2204,7 +2204,9 @@ protected:    // interface for the derived class
                                           ::boost::msm::back::EventSource source = ::boost::msm::back::EVENT_SOURCE_DEFAULT)
     {
         // if the state machine has terminate or interrupt flags, check them, otherwise skip
-        if (is_event_handling_blocked_helper<Event>
+        // Event can be deduced as a (const) reference type: the end interrupt flag is defined for the event type itself
+        if (is_event_handling_blocked_helper<
+                typename ::boost::remove_cv<typename ::boost::remove_reference<Event>::type>::type>
                 ( ::boost::mpl::bool_<has_fsm_blocking_states<library_sm>::type::value>() ) )
         {
             return ::boost::msm::back::HANDLED_TRUE;
